@@ -957,7 +957,7 @@ def _flat(func):
 
 
 def edit_kind(cfunc, rfunc):
-    """'identical' | 'first-order' (nothing inserted, at most one statement replaced, any number deleted) | 'rewritten' ; with (deleted, inserted, replaced)"""
+    """'identical' | 'first-order' (at most ONE new or changed statement, any number deleted) | 'rewritten' ; with (deleted, inserted, replaced)"""
     a, b = _flat(rfunc), _flat(cfunc)
     if a == b and ast.dump(cfunc.args) == ast.dump(rfunc.args) and [ast.dump(d) for d in cfunc.decorator_list] == [ast.dump(d) for d in rfunc.decorator_list]:
         return "identical", (0, 0, 0)
@@ -972,7 +972,7 @@ def edit_kind(cfunc, rfunc):
             rep += k
             dele += (i2 - i1) - k
             ins += (j2 - j1) - k
-    if ins == 0 and rep <= 1:
+    if ins + rep <= 1:
         return "first-order", (dele, ins, rep)
     return "rewritten", (dele, ins, rep)
 
@@ -995,3 +995,17 @@ def rewritten_functions(repo, ref):
             if k == "rewritten":
                 out.append("%s.%s (-%d +%d ~%d statements)" % (short, name, d, i, r))
     return out
+
+
+def value_returns(func):
+    """number of `return <value>` statements of the function itself (nested functions excluded)"""
+    n = 0
+    stack = list(func.body)
+    while stack:
+        x = stack.pop()
+        if isinstance(x, SCOPES):
+            continue
+        if isinstance(x, ast.Return) and x.value is not None and not (isinstance(x.value, ast.Constant) and x.value.value is None):
+            n += 1
+        stack.extend(ast.iter_child_nodes(x))
+    return n
